@@ -50,7 +50,7 @@ func progString(p []Instr) string {
 			sb.WriteString("; ")
 		}
 		sb.WriteString(ins.Op)
-		if ins.Op == "ToBinary" {
+		if ins.Op == "ToBinary" || ins.Op == "GRangePlain" || ins.Op == "GPartition" {
 			fmt.Fprintf(&sb, "[%d]", ins.N)
 		}
 		sb.WriteString("(")
